@@ -7,7 +7,8 @@ Two behaviour-preserving rewrites make routine refactorings invisible to the rul
   tree (sa/inventory.json: the names the rules may anchor on) is replaced by the helper's body.  "Extract method" therefore
   leaves the analysed function as it was before the extraction.  Helpers with early returns are first brought into single-exit
   form (the statements after an `if` that returns are pushed into its branches); a helper that returns from inside a loop, a
-  try or a with block, yields, or takes *args/**kwargs is left alone.
+  try or a with block, yields, or takes *args/**kwargs is left alone.  A list comprehension assigned to a name whose element
+  calls such a helper is first rewritten as the equivalent append loop, so that the call can be inlined there.
 * constant substitution: a load of a module-level or class-level name that is not in the inventory and is bound exactly once to
   a literal expression (numbers, strings, tuples/lists/dicts/sets of those, arithmetic over them, references to names of the
   module) is replaced by that expression, so `_M_PER_FT = 0.3048 ... x * _M_PER_FT` reads `x * 0.3048` again.
@@ -342,7 +343,8 @@ class ModuleNormalizer(object):
             if owner in ("self", "cls") and cls is not None:
                 m = self.cls_funcs.get(cls, {}).get(f.attr)
                 if m is not None:
-                    return m, f.value, cls + "." + f.attr
+                    # a staticmethod reached through self / cls takes no receiver
+                    return m, (None if self._is_static(m) else f.value), cls + "." + f.attr
             elif owner in self.cls_funcs:
                 m = self.cls_funcs[owner].get(f.attr)
                 if m is not None and self._is_static(m):
@@ -449,7 +451,46 @@ class ModuleNormalizer(object):
             todo.extend(ast.iter_child_nodes(n))
         return None
 
+    def _desugar_comp(self, s, cls, fn, qual, nested):
+        """`t = [elt for x in it if c]` whose element calls an inlinable helper -> `t = []; for x in it: if c: t.append(elt)`, so that the
+        call reaches an evaluation position where the next pass inlines it (loop vs comprehension around an extracted helper)."""
+        if not (isinstance(s, ast.Assign) and len(s.targets) == 1 and isinstance(s.targets[0], ast.Name) and isinstance(s.value, ast.ListComp)):
+            return None
+        comp = s.value
+        if len(comp.generators) != 1 or comp.generators[0].is_async:
+            return None
+        if self._find_call(comp.elt, cls, fn, qual, nested) is None:
+            return None
+        tname = s.targets[0].id
+        if tname in {n.id for n in ast.walk(comp) if isinstance(n, ast.Name)}:
+            return None
+        comp = copy.deepcopy(comp)
+        g = comp.generators[0]
+        # the comprehension variable is private to the comprehension: give it a fresh name if the function uses that name elsewhere
+        inside = {id(n) for n in ast.walk(s.value)}
+        outside = {n.id for n in ast.walk(fn) if isinstance(n, ast.Name) and id(n) not in inside} | {a.arg for a in ast.walk(fn) if isinstance(a, ast.arg)}
+        rename = {}
+        for v in sorted(_stored_names([g.target])):
+            if v in outside:
+                self.counter += 1
+                rename[v] = "%s_%d" % (v, self.counter)
+        if rename:
+            comp = _Subst({}, rename).visit(comp)
+            g = comp.generators[0]
+        body = [ast.Expr(value=ast.Call(func=ast.Attribute(value=ast.Name(id=tname, ctx=ast.Load()), attr="append", ctx=ast.Load()), args=[comp.elt], keywords=[]))]
+        for c in reversed(g.ifs):
+            body = [ast.If(test=c, body=body, orelse=[])]
+        init = ast.Assign(targets=[ast.Name(id=tname, ctx=ast.Store())], value=ast.List(elts=[], ctx=ast.Load()))
+        loop = ast.For(target=g.target, iter=g.iter, body=body, orelse=[])
+        out = [ast.copy_location(init, s), ast.copy_location(loop, s)]
+        for x in out:
+            ast.fix_missing_locations(x)
+        return out
+
     def _inline_in_stmt(self, s, cls, fn, qual, nested):
+        d = self._desugar_comp(s, cls, fn, qual, nested)
+        if d is not None:
+            return d, None
         for expr in self._header_exprs(s):
             found = self._find_call(expr, cls, fn, qual, nested)
             if found is None:
